@@ -154,8 +154,8 @@ impl<T: Clone> Stack<T> {
     }
 
     /// Checks the bookkeeping the fields' documentation promises (monitoring builds only):
-    /// for every open snapshot `remained <= len`, `remained` never exceeds what is
-    /// still in `cache`, inner snapshots never claim more than outer ones kept, and `popped`
+    /// for every open snapshot `remained <= len`, `remained` never exceeds what was there
+    /// when the next snapshot was taken (the live stack for the innermost one), and `popped`
     /// holds exactly the elements the open snapshots need to rewind.
     pub fn verif_check_invariants(&self) -> Result<(), alloc::string::String> {
         let mut total = 0usize;
@@ -163,10 +163,15 @@ impl<T: Clone> Stack<T> {
             if remained > len {
                 return Err(alloc::format!("snapshot {i}: remained {remained} > len {len}"));
             }
-            if remained > self.cache.len() {
+            // `remained` counts what was still there when the *next* snapshot was taken;
+            // only the innermost snapshot is bounded by the live stack.
+            let bound = match self.lengths.get(i + 1) {
+                Some(&(next_len, _)) => next_len,
+                None => self.cache.len(),
+            };
+            if remained > bound {
                 return Err(alloc::format!(
-                    "snapshot {i}: remained {remained} > cache {}",
-                    self.cache.len()
+                    "snapshot {i}: remained {remained} > {bound} (next snapshot / live stack)"
                 ));
             }
             total += len - remained;
